@@ -53,9 +53,9 @@ def fmtChars (l : List Char) : String :=
 def fmtStr (s : String) : String := fmtChars s.toList
 
 def fmtIn : InArg → String
-  | .stdin => "0" | .file p => "1 " ++ fmtStr p | .nil => "2"
+  | .stdin => "0" | .file p => "1 " ++ fmtStr p
 def fmtOut : OutArg → String
-  | .stdout => "0" | .file p => "1 " ++ fmtStr p | .nil => "2"
+  | .stdout => "0" | .file p => "1 " ++ fmtStr p
 def fmtB (b : Bool) : String := if b then "1" else "0"
 
 def fmtArgs (a : Cli.Tools.Args) : String :=
@@ -75,7 +75,6 @@ def fmtOutcome : Outcome → String
   | .ok (.file p) t => "ok 1 " ++ fmtStr p ++ " " ++ fmtChars t
   | .help => "help"
   | .cliError _ pfx => "cliError " ++ fmtStr pfx
-  | .silent => "silent"
   | .escaped e => "escaped " ++ fmtStr e
   | .badDraws => "badDraws"
 
